@@ -339,7 +339,84 @@ def r6(ctx):
         raise AnalysisBroken('C19.R6: only %d constructions found in NumberDataType::derive' % n)
 
 
+def _pure_conds(fn, nid, isvar):
+    """[(cond, in_then)] of the enclosing if statements of nid whose condition depends on nothing but the variable"""
+    out = []
+    child = nid
+    p = fn.parent(nid)
+    while p is not None:
+        v = fn.nodes[p]
+        if v['k'] == 'IfStmt' and child != v.get('cond'):
+            leaves = [x for x in fn.walk(v['cond']) if fn.nodes[x]['k'] in ('DeclRefExpr', 'MemberExpr', 'CallExpr', 'CXXMemberCallExpr')
+                      and fn.nodes[x].get('rk') != 'enumerator']
+            if leaves and all(isvar(fn.nodes[x]) for x in leaves):
+                out.append((v['cond'], v.get('then') is not None and (child == v['then'] or child in set(fn.walk(v['then'])))))
+        child = p
+        p = fn.parent(p)
+    return out
+
+
+def r7(ctx):
+    ctx.rule('C19.R7', 'writer and reader agree on when the length of a number field counts bits: NumberDataType::dump writes '
+             'm_bitCount as the length under a condition that, for every bit count a number type can have (the registered '
+             'ones and those derive() can reduce a bit type to), is true exactly when SingleDataField::create takes the '
+             'length column as a bit count', minimum=1)
+    import tinyeval
+    fb = ctx.fb
+    reg = set()
+    for f in fb.functions:
+        if f.name == 'ebusd::DataTypeList::DataTypeList' and f.blocks:
+            for n in f.all('CXXNewExpr'):
+                v = f.nodes[n]
+                if 'NumberDataType' not in v.get('newt', '') or v.get('init') is None:
+                    continue
+                init = f.nodes[v['init']]
+                cal = [g for g in fb.functions if g.name == init.get('callee') and g.sig == init.get('sig')]
+                pi = [i for i, p in enumerate(cal[0].params) if p.get('name') == 'bitCount'] if cal else []
+                if pi and f.val(init['args'][pi[0]]) is not None:
+                    reg.add(f.val(init['args'][pi[0]]))
+            break
+    if len(reg) < 4:
+        raise AnalysisBroken('C19.R7: registered number types not found (%s)' % sorted(reg))
+    counts = set(reg)
+    for b in reg:
+        if b % 8:
+            counts |= set(range(1, b))
+    wr = fb.fn('ebusd::NumberDataType::dump')
+    ctx.touch(wr)
+    wcalls = [c for c in wr.calls('ebusd::DataType::dump', suffix=False) if len(wr.nodes[c].get('args', [])) >= 2 and
+              wr.key(wr.nodes[c]['args'][1]) == 'this.m_bitCount']
+    rd = fb.fn('ebusd::SingleDataField::create')
+    ctx.touch(rd)
+    bcl = rd.local_where(lambda k, r: k.endswith('.getBitCount()'))
+    ln = [p['name'] for p in rd.params if p.get('name') == 'length'] or [rd.P(4)]
+    rasg = [nid for nid, d, rhs, op, lhs in rd.assignments() if op == '=' and d and bcl and d.split(':')[-1] == bcl[0] and
+            rhs is not None and rd.key(rhs) == ln[0]]
+    if len(wcalls) != 1 or len(rasg) != 1:
+        raise AnalysisBroken('C19.R7: bit length writer (%d) or reader (%d) not found' % (len(wcalls), len(rasg)))
+    wconds = _pure_conds(wr, wcalls[0], lambda v: v.get('name') == 'm_bitCount' and v.get('this'))
+    bdecl = [d for nid, d, rhs, op, lhs in rd.assignments() if op == 'init' and d and d.split(':')[-1] == bcl[0]][0]
+    rconds = _pure_conds(rd, rasg[0], lambda v: v.get('decl') == bdecl)
+    if not wconds or not rconds:
+        raise AnalysisBroken('C19.R7: conditions on the bit count not found (writer %d, reader %d)' % (len(wconds), len(rconds)))
+    diff = []
+    try:
+        for b in sorted(counts):
+            m = tinyeval.Machine(wr, {'m_bitCount': b}, [])
+            w = all(bool(m.rv(c)) == t for c, t in wconds)
+            m = tinyeval.Machine(rd, {}, [])
+            m.locals[bdecl] = b
+            r = all(bool(m.rv(c)) == t for c, t in rconds)
+            if w != r:
+                diff.append('%d bits: written as %s, read as %s' % (b, 'bits' if w else 'bytes', 'bits' if r else 'bytes'))
+    except tinyeval.Unknown as e:
+        raise AnalysisBroken('C19.R7: condition not evaluable (%s)' % e)
+    ctx.ob('C19.R7', wr, wcalls[0], not diff, 'length unit of number fields', '; '.join(diff) or
+           'writer and reader agree for the bit counts %s' % sorted(counts))
+
+
 def run(ctx):
+    r7(ctx)
     r1(ctx)
     r2(ctx)
     r3(ctx)
